@@ -34,13 +34,79 @@ EXPLANATION += (' R-C12-6: a local helper whose result is NaN-patched (.fillna) 
 EXPLANATION += (" R-C12-4 evaluates the membership mask of the re-binning helper (after inlining its locals) as a boolean function of the position of a range relative to the class edges, for &, |, ~, operator/np comparison functions and comparison expressions; an approximate comparison (np.isclose ...) in the mask is a violation. R-C12-7: no numeric parameter (M, M2, R_goal, amplitude, meanstress ...) of a mean-stress function is used as a truth value - 0 is admissible for each of them.")
 EXPLANATION += (' R-C12-8: whatever the histogram accessor combines by position with the rows of the caller\'s matrix (A.iloc[mask(B.values)], traced through nested helpers and common row selections) is aligned with the index of the matrix first (B = B.reindex(self._obj.index)); the transformed classes come back in the row order of the broadcast; before that re-indexing the levels of B are put into the order of the levels of the matrix (reorder_levels, unconditionally or for every MultiIndex), because reindex matches levels by position.')
 EXPLANATION += (' R-C12-9: class-level caches of the mean stress module are keyed by everything the cached object is built from (parameter-rooted access paths of value and key compared), and no accessor memoises across calls (memo rule).')
+EXPLANATION += (" R-C12-11: no branch of the segment transformer is decided by a reduction (all / any / sum ...) of the mean stress sensitivities over all elements of a table of diagrams; only row masks are reduced (nothing to shift -> return).")
 ASSUMPTIONS = ["pandas IntervalIndex.get_indexer_for maps interval values to their positions",
                "1 - R_goal + M (1 + R_goal) != 0 for admissible slopes"]
 
 
 def run(ctx):
-    for r in (_r1, _r2, _r3, _r4, _r5, _r6, _r7, _r8, _r9):
+    for r in (_r1, _r2, _r3, _r4, _r5, _r6, _r7, _r8, _r9, _r11):
         ctx.attempt(r)
+
+
+def slope_reductions(fn_node):
+    """`if` tests inside the segment transformer that reduce the mean stress sensitivities of ALL elements to one truth value
+    (`M.all()`, `M.any()`, `np.all(M == 0)`, `not M.sum()`): the slopes are per element x cycle, a branch decided that way is taken
+    or skipped for every element at once.  [(if node, text)]"""
+    haigh_helpers = {h.name for h in ast.walk(fn_node) if isinstance(h, ast.FunctionDef) and h is not fn_node and
+                     any(is_self_attr(n, '_haigh') for n in ast.walk(h))}
+    slopes = set()
+    for st in ast.walk(fn_node):
+        if isinstance(st, ast.Assign) and len(st.targets) == 1 and isinstance(st.targets[0], ast.Name):
+            v = st.value
+            if any(is_self_attr(n, '_haigh') for n in ast.walk(v)) or \
+                    (isinstance(v, ast.Call) and isinstance(v.func, ast.Name) and v.func.id in haigh_helpers):
+                slopes.add(st.targets[0].id)
+    out = []
+    for st in ast.walk(fn_node):
+        if not isinstance(st, (ast.If, ast.IfExp, ast.While)):
+            continue
+        for c in ast.walk(st.test):
+            red = None
+            if isinstance(c, ast.Call) and isinstance(c.func, ast.Attribute) and c.func.attr in ('all', 'any', 'sum', 'max', 'min', 'item', 'bool'):
+                red = c.func.value
+            elif isinstance(c, ast.Call) and (call_name(c) or '') in ('np.all', 'np.any', 'all', 'any', 'bool', 'np.count_nonzero', 'np.sum') and c.args:
+                red = c.args[0]
+            if red is None:
+                continue
+            for n in ast.walk(red):
+                direct = (isinstance(n, ast.Name) and n.id in slopes) or is_self_attr(n, '_haigh')
+                if direct and not (isinstance(getattr(n, '_parent', None), ast.Attribute) and n._parent.attr in ('index', 'columns', 'shape', 'size')):
+                    out.append((st, norm_text(st.test)[:70]))
+                    break
+    seen, res = set(), []
+    for st, t in out:
+        if id(st) not in seen:
+            seen.add(id(st))
+            res.append((st, t))
+    return res
+
+
+def _r11(ctx):
+    """R-C12-11: inside the segment transformer no branch is decided by a reduction of the mean stress sensitivities over all
+    elements.  With a table of sensitivities (one row per element) the transformation of an element's cycles depends on that
+    element's slopes only; `if not M.all(): <leave the amplitudes>` skips the update for every element as soon as ONE element has
+    a vanishing slope in the segment."""
+    prog = ctx.prog
+    ctx.rule('R-C12-11', floor=1, what='no branch of the segment transformer is decided by a reduction over the slopes of all elements')
+    from ..frontend import set_parents
+    ex = set_parents(ast.parse('class T:\n    def f(self, iv):\n        def seg():\n            return self._haigh.xs(iv, level="R")\n        ts = self.cycles_in(iv)\n        if not ts.any():\n            return\n        M = seg()\n        ts = self.sel(ts, M.index)\n        if not M.all():\n            return\n')).body[0].body[0]
+    if len(slope_reductions(ex)) != 1:
+        raise AnalysisError('R-C12-11 built-in example not matched')
+    ci = prog.cls(MS + ':_SegmentTransformer')
+    n = 0
+    for name, defs in sorted(ci.methods.items()):
+        fi = defs[-1]
+        n += 1
+        hits = slope_reductions(fi.node)
+        for st, t in hits:
+            ctx.violated(fi, st, '_SegmentTransformer.%s decides a branch by reducing the sensitivities of all elements to one truth value (%s): '
+                         'one element with a vanishing slope in the segment changes the path of every element of the table' % (name, t),
+                         text='branch on a reduction of the slopes in ' + name)
+        if not hits:
+            ctx.holds(fi, fi.node, '_SegmentTransformer.%s: no branch on a reduction of the slopes' % name)
+    if n == 0:
+        raise AnalysisError('_SegmentTransformer has no methods')
 
 
 def _r9(ctx):
